@@ -1,7 +1,7 @@
 (* C07 — Observe client: notifications in freshness order, termination signalled once.
    Property theorems only; proofs are in Proofs/C07Serial.v, Proofs/C07.v, Proofs/C07Stack.v.
    Model: Gen/protocol_is_recent.v (translated from protocol.py on every run), Model/C07.v, Model/C07Stack.v. *)
-From Verif Require Import Lib.Py Lib.Tactics Gen.protocol_is_recent Model.C07 Model.C07Stack Proofs.C07Serial Proofs.C07 Proofs.C07Stack.
+From Verif Require Import Lib.Py Lib.Tactics Gen.protocol_is_recent Model.C07 Model.C07Stack Model.C07Iter Model.C07Blockwise Proofs.C07Serial Proofs.C07 Proofs.C07Stack Proofs.C07Iter Proofs.C07Cancel Proofs.C07Blockwise.
 From Coq Require Import Permutation.
 Open Scope Z_scope.
 
@@ -134,6 +134,95 @@ Theorem iterator_lossy_but_latest : forall ids x d,
   last (snd (anext_drain (pushes idle (map IMsg ids ++ [x])))) d = yield x.
 Proof. exact Proofs.C07.iterator_lossy_but_latest. Qed.
 Print Assumptions iterator_lossy_but_latest.
+
+(* ================================================================== round 2 *)
+(* ---- 7. the async iterator over a WHOLE run, with a consumer that may be busy between two __anext__ calls
+        (Model/C07Iter.v; Model/C07.v's anext_drain is the instance with an instantaneous loop body):
+        any interleaving of pushes, wake-ups and pulls yields an in-order subsequence of what was pushed ... *)
+Theorem iterator_whole_run_subsequence : forall ops g, Subseq (grun g ops) (pending g ++ pushed ops).
+Proof. exact iterator_run_subsequence. Qed.
+Print Assumptions iterator_whole_run_subsequence.
+
+(* ... and a consumer that keeps pulling eventually yields the latest notification or the end signal *)
+Theorem iterator_whole_run_eventually_latest : forall ops x, err_last (pushed ops) = true -> lasto (pushed ops) = Some x ->
+  lasto (grun (GBlocked None None) (ops ++ keep_pulling)) = Some x.
+Proof. exact iterator_eventually_latest. Qed.
+Print Assumptions iterator_whole_run_eventually_latest.
+
+Theorem anext_drain_is_the_instant_consumer : forall it, it_started it = true ->
+  map yield (grun (embed it) [GWake; GPull; GPull]) = snd (anext_drain it)
+  /\ (fst (gstep (fst (gstep (fst (gstep (embed it) GWake)) GPull)) GPull) = embed (fst (anext_drain it)) \/ it_w it = None).
+Proof. exact anext_drain_is_instant_consumer. Qed.
+Print Assumptions anext_drain_is_the_instant_consumer.
+
+(* ---- 8. side condition made explicit (observation O-C07-2): as long as the APPLICATION does not cancel the observation
+        itself, no exception ever leaves Pipe._add_event — for every op list; with observation.cancel() it does *)
+Theorem no_exception_leaves_the_pipe : forall ops has_obs reset, ~ In OpCancelObs ops ->
+  escapes (concat (run (sys0 has_obs reset) ops)) = false.
+Proof. exact no_exception_escapes. Qed.
+Print Assumptions no_exception_leaves_the_pipe.
+
+Theorem no_exception_leaves_the_pipe_unconditionally_refuted :
+  run (sys0 true 128000000) [OpCancelObs; OpEvent 0 (EvMsg 1 None true)] = [[]; [OResp 1; OEscaped RuntimeError]].
+Proof. exact no_exception_escapes_without_hypothesis_refuted. Qed.
+Print Assumptions no_exception_leaves_the_pipe_unconditionally_refuted.
+
+Theorem con_response_always_answered_refuted :
+  fst (srun (stack0 true 128000000 false 0) [SApp 0 OpCancelObs; SResponse 1 CON 1 None true false])
+  = [[]; [App (OResp 1); App (OEscaped RuntimeError)]].
+Proof. exact con_response_unanswered_refuted. Qed.
+Print Assumptions con_response_always_answered_refuted.
+
+Theorem exchanges_cleaned_after_transport_error_refuted :
+  k_exchange (srun_state (stack0 true 128000000 true 0) [SApp 0 OpCancelObs; SNetError 1]) = Some 62000000.
+Proof. exact exchanges_cleaned_refuted. Qed.
+Print Assumptions exchanges_cleaned_after_transport_error_refuted.
+
+(* ---- 9. BlockwiseRequest's observation (Model/C07Blockwise.v) *)
+(* once the outer observation has been told its end nothing more reaches it, whatever arrives on whichever token *)
+Theorem blockwise_silent_after_end : forall ops b, dead b -> outer_obs (brun_outs b ops) = [].
+Proof. exact bw_silent_after_end. Qed.
+Print Assumptions blockwise_silent_after_end.
+
+(* one run of the observation task: notifications, then at most one end signal, after which the task is over
+   (partial: not yet composed into "at most one end signal over the whole history") *)
+Theorem blockwise_task_ends_once_partial : forall fuel now b,
+  exists cbs tail, outer_obs (snd (consumer_run fuel now b)) = cbs ++ tail
+    /\ Forall (fun o => match o with BCb _ _ => True | _ => False end) cbs
+    /\ (tail = [] \/ exists e, tail = [BEb e] /\ (b_first_done b = true -> dead (fst (consumer_run fuel now b)))).
+Proof. exact consumer_run_shape. Qed.
+Print Assumptions blockwise_task_ends_once_partial.
+
+Theorem blockwise_assembly_exact : forall id n r id' n', complete_next id n r = inl (id', n') ->
+  (r_blk r = BNone /\ id' = r_id r /\ n' = 1)
+  \/ (exists more, r_blk r = BBlock n false true /\ more = false /\ r_etag_ok r = true /\ id' = id /\ n' = n + 1).
+Proof. exact assembly_exact. Qed.
+Print Assumptions blockwise_assembly_exact.
+
+(* the three places where the property text fails on the faithful model (open findings, see notes/C07.md) *)
+Theorem blockwise_final_response_delivered_refuted :
+  fst (brun (bw0 128000000 0) final_while_busy) = [[BResp 0 1]; [BReq 1]; []; [BCb 1 2; BEb ObservationCancelled]; []].
+Proof. exact final_response_always_delivered_refuted. Qed.
+Print Assumptions blockwise_final_response_delivered_refuted.
+
+Theorem blockwise_token_released_at_end_refuted :
+  brun (bw0 128000000 0) first_fetch_fails
+  = ([[BReq 1]; [BRespExn ResourceChanged; BEb ResourceChanged]; [BWire ACK]; [BWire ACK]], 1).
+Proof. exact token_released_at_end_refuted. Qed.
+Print Assumptions blockwise_token_released_at_end_refuted.
+
+Theorem blockwise_later_notifications_rejected_refuted :
+  brun (bw0 128000000 0) notif_fetch_fails
+  = ([[BResp 0 1]; [BReq 1]; [BEb ResourceChanged]; [BWire ACK]; [BWire RST]], 0).
+Proof. exact later_notifications_rejected_refuted. Qed.
+Print Assumptions blockwise_later_notifications_rejected_refuted.
+
+Example dead_reachable : dead (fst (bstep (fst (bstep (bw0 128000000 0) (BMain 1 NON 0 (Some 5) BNone))) (BMain 2 NON 1 None BNone))).
+Proof. unfold dead. vm_compute. auto. Qed.
+Example whole_run_instance :
+  grun (GBlocked None None) ([GPush (IMsg 1); GWake; GPush (IMsg 2); GPush (IMsg 3); GPush (IErr ObservationCancelled)] ++ keep_pulling)
+  = [IMsg 1; IErr ObservationCancelled].
+Proof. vm_compute. reflexivity. Qed.
 
 (* ================================================================== non-vacuity *)
 (* a concrete reordered, duplicated, wrapping history: first response Observe 2^24-2; arrivals 2^24-1, 1, 0 (late),
